@@ -60,7 +60,17 @@ func TestMain(m *testing.M) {
 	}
 	defer os.RemoveAll(dir)
 	harness.Cleanup = func() { os.RemoveAll(dir) }
-	idle := string(reportfeed.New(realLog, circularQueue.NewCircularQueue(2)).Status())
+	// the report of an idle feed gives the template's own angle brackets; if even
+	// that panics, every scenario reports it (a verdict, not a crash of the harness)
+	idle := ""
+	func() {
+		defer func() {
+			if p := recover(); p != nil {
+				idleStatusPanic = fmt.Sprint(p)
+			}
+		}()
+		idle = string(reportfeed.New(realLog, circularQueue.NewCircularQueue(2)).Status())
+	}()
 	templateAngles = strings.Count(idle, "<") + strings.Count(idle, ">")
 	if i := strings.Index(idle, "id='messages'>"); i >= 0 {
 		templateAnglesBeforeMessages = strings.Count(idle[:i+len("id='messages'>")], "<") + strings.Count(idle[:i+len("id='messages'>")], ">")
@@ -442,6 +452,10 @@ func unescape(s string) string {
 	return strings.ReplaceAll(strings.ReplaceAll(s, "&lt;", "<"), "&gt;", ">")
 }
 
+// idleStatusPanic is set when ReportFeed.Status() panics on a feed that has seen
+// no traffic (measured once at start-up).
+var idleStatusPanic string
+
 // templateAngles is the number of '<' and '>' in reportfeed's fixed template,
 // measured on the report of an idle feed.
 var templateAngles, templateAnglesBeforeMessages int
@@ -565,6 +579,9 @@ func scenarios(tier string) []*mcrt.Scenario {
 						},
 						Check: func(x *mcrt.X) *mcrt.Failure {
 							obs := x.Data.(*obsT)
+							if idleStatusPanic != "" {
+								return &mcrt.Failure{Kind: "panic in ReportFeed.Status on an idle feed: " + first(idleStatusPanic)}
+							}
 							if fault != "" {
 								return &mcrt.Failure{Kind: "sequential-framing-failed", Detail: fault}
 							}
